@@ -57,6 +57,11 @@ type Options struct {
 	Unroll      int
 	Thorough    bool
 	GuardedMerge bool // merge array heap variables through guarded equalities instead of ite terms
+	// RelaxFrame: heap keys for which loops neither assume nor check their modifies clause
+	// (the arrays are simply havocked).  Used for a second pass when a changed function
+	// writes a new kind of location in a loop: the proof must then hold without relying on
+	// the frame for it.
+	RelaxFrame map[string]bool
 }
 
 type Closure struct {
@@ -1295,7 +1300,7 @@ func (x *Exec) loopFrame(li *loopInfo, st *State) string {
 }
 
 func (x *Exec) loopFrameKey(li *loopInfo, st *State, only string) string {
-	if !li.hasModT {
+	if !li.hasModT || x.opts.RelaxFrame[only] {
 		return "true"
 	}
 	var cs []string
